@@ -258,7 +258,12 @@ func genOutbox(r *Rng, prop string, k int, tier string) *RunSpec {
 		inner := J{"type": "Note", "id": "https://" + hostA + "/n/h", "content": "deep", "bto": st.Dave, "bcc": []string{st.Erin}}
 		var doc J = inner
 		for d := 0; d < depth; d++ {
-			doc = J{"type": Pick(r, []string{"Create", "Announce", "Like"}), "id": fmt.Sprintf("https://%s/n/h%d", hostA, d), "actor": st.Alice.ID, "object": doc}
+			// Relationship is the one non-activity type with an 'object' property
+			doc = J{"type": Pick(r, []string{"Create", "Announce", "Like", "Relationship", "Offer"}), "id": fmt.Sprintf("https://%s/n/h%d", hostA, d), "actor": st.Alice.ID, "object": doc}
+			if doc["type"] == "Relationship" {
+				delete(doc, "actor")
+				doc["subject"] = st.Alice.ID
+			}
 			if r.Bool() {
 				doc["bcc"] = st.Dave
 			}
@@ -272,6 +277,10 @@ func genOutbox(r *Rng, prop string, k int, tier string) *RunSpec {
 			f := st.act("Follow", J{"object": st.Alice.ID, "bto": st.Erin, "bcc": []string{st.Dave, st.Bob.ID}})
 			reqs = append(reqs, inboxReq(fmt.Sprintf("r%d", len(reqs)), st.Alice, hostA, f))
 		}
+	}
+	if prop == "C03" && r.Intn(8) == 0 {
+		// the stored document of the sending actor is incomplete (no inbox): the post must fail, never leak
+		st.W.Servers[0].Docs = append(st.W.Servers[0].Docs, DocSpec{st.Alice.ID, mustJSON(J{"@context": asCtx, "type": "Person", "id": st.Alice.ID, "outbox": st.Alice.Outbox})})
 	}
 	sp := mk(prop, st, reqs...)
 	sp.Gen = fmt.Sprintf("outbox/%s/%d", prop, k)
